@@ -165,12 +165,21 @@ func c07Check(cs c07Case) (sig, detail string) {
 		if strings.HasPrefix(end, "fatal") {
 			return "", ""
 		}
+		if strings.HasPrefix(cs.Family, "undeclared-segment") {
+			return "undeclared-segment-not-fatal", desc()
+		}
 		return "missing-element-without-default-not-fatal", desc()
 	}
 	ok := end == "eof" && len(got) == len(cs.Want)
 	if ok {
 		for i := range got {
-			if strings.Join(got[i], "\x00") != strings.Join(cs.Want[i], "\x00") {
+			g, w := strings.Join(got[i], "\x00"), strings.Join(cs.Want[i], "\x00")
+			if strings.HasPrefix(cs.Family, "invalid-utf8") {
+				// whether an invalid byte is kept as it is or becomes U+FFFD on its way into the tree is not
+				// the property's business (the JSON output has U+FFFD either way): compare modulo that
+				g, w = c01ReplaceInvalid(g), c01ReplaceInvalid(w)
+			}
+			if g != w {
 				ok = false
 			}
 		}
@@ -443,6 +452,29 @@ func c07Run(c *core.Ctx) {
 				Decls: []c07Decl{{Name: "a", Index: 1}, {Name: "b", Index: 1, Comp: 1}},
 				Want:  [][]string{{"a=" + na, "b=" + na}, {"a=" + na, "b=" + na}}}, fmt.Sprintf("%d|twice", ci)) {
 				return
+			}
+		}
+		// bytes that are not valid UTF-8, and U+FFFD itself, in values and at the very start of a segment
+		// (a segment that starts with them is not declared: the reader must say so, not skip it)
+		for _, odd := range []string{"\xff", "\uFFFD", "\xc3", "\xe4\xb8", "\x80x"} {
+			if cfg.IgnoreCRLF || cfg.Seg == "\n" {
+				continue
+			}
+			cfgb := cfg
+			cfgb.BufSize = 128
+			v1, v2 := odd+"a", "b"+odd
+			in := cfg.encode(ediSegment{{{"S"}}, {{v1}}, {{v2}}}, cfg.Seg) + cfg.encode(ediSegment{{{"S"}}, {{v2}}, {{v1 + odd}}}, cfg.Seg)
+			if !try(c07Case{Cfg: cfgb, Input: []byte(in), Family: "invalid-utf8-in-values",
+				Decls: []c07Decl{{Name: "e1", Index: 1}, {Name: "e2", Index: 2}},
+				Want:  [][]string{{"e1=" + v1, "e2=" + v2}, {"e1=" + v2, "e2=" + v1 + odd}}}, fmt.Sprintf("%d|oddvalue", ci)) {
+				return
+			}
+			for _, lead := range []string{"", "\n", "\r\n\n"} {
+				in2 := cfg.encode(ediSegment{{{"S"}}, {{"a"}}, {{"b"}}}, cfg.Seg) + lead + odd + cfg.encode(ediSegment{{{"S"}}, {{"c"}}, {{"d"}}}, cfg.Seg) + cfg.encode(ediSegment{{{"S"}}, {{"e"}}, {{"f"}}}, cfg.Seg)
+				if !try(c07Case{Cfg: cfgb, Input: []byte(in2), Family: "undeclared-segment-starting-with-invalid-utf8", Fatal: true,
+					Decls: []c07Decl{{Name: "e1", Index: 1}, {Name: "e2", Index: 2}}}, fmt.Sprintf("%d|oddsegment", ci)) {
+					return
+				}
 			}
 		}
 		// padded segments around the 128-byte scanner buffer and its first doubling
